@@ -82,7 +82,7 @@ def run_case(case):
     except Exception:
         return {"status": "undecided", "counters": {"pandas_refused": 1}}
     try:
-        b.eval_dx()
+        b.eval_dx(method)
     except Exception as e:
         return {"status": "refused", "counters": {"build_refused": 1}, "sets": {"build_refusals": [f"{type(e).__name__}:{str(e)[:50]}"]}}
     flags = {"order": b.out_pd.order, "index": b.out_pd.index}
